@@ -39,6 +39,7 @@ inductive Op where
   | append (b : Bytes)
   | writeStart (b : Bytes)
   | setPosition (p : Nat)
+  | truncate            -- `File::create` on the target path: an existing file is emptied
 deriving Repr, DecidableEq
 
 structure W where
@@ -56,11 +57,13 @@ def W.applyCut (w : W) (op : Op) (k : Nat) : W :=
   | .writeStart b =>
     if (b.take k).isEmpty then w else { w with file := writeAt w.file 0 (b.take k) }
   | .setPosition p => if k = 0 then w else { w with pos := p }
+  | .truncate => if k = 0 then w else { file := [], pos := 0 }
 
 def Op.size : Op → Nat
   | .append b => b.length
   | .writeStart b => b.length
   | .setPosition _ => 1
+  | .truncate => 1
 
 def W.apply (w : W) (op : Op) : W := w.applyCut op op.size
 
@@ -73,6 +76,16 @@ def crash (ops : List Op) (i k : Nat) : Bytes :=
   match ops[i]? with
   | none => (run ops).file
   | some op => ((run (ops.take i)).applyCut op k).file
+
+/-- the same when the target path already holds the bytes `old` (`DataWriterFile::from_path` on
+    an existing file, `data_writer_file.rs:60-66`); the writer's first operation is then the
+    truncation done by `File::create`. -/
+def runOn (old : Bytes) (ops : List Op) : W := ops.foldl W.apply { file := old, pos := 0 }
+
+def crashOn (old : Bytes) (ops : List Op) (i k : Nat) : Bytes :=
+  match ops[i]? with
+  | none => (runOn old ops).file
+  | some op => (((ops.take i).foldl W.apply { file := old, pos := 0 }).applyCut op k).file
 
 /-! ### integers -/
 
@@ -229,7 +242,8 @@ def coreP (file : Bytes) : Bytes × Bytes := (file.take 99, file.drop 127)
 `C12 <fmt> <ntab> <hex>… <nops> <op>… <ncuts> <i>:<k>…`
 * `<fmt>` = `v` | `p`; the table lists the byte strings the real decompressors accept (every other
   non-empty-or-empty input of a compressed kind is rejected; `none` is the identity);
-* ops: `a:<hex>`, `w:<hex>`, `p:<n>`;
+* ops: `a:<hex>`, `w:<hex>`, `p:<n>`, `t` (truncation by `File::create`); an optional `old <hex>`
+  after the cuts gives the bytes the path held before the writer was created (default: empty);
 * answer: one letter per cut – `e` open fails, `f` opens and the bytes equal the completed file,
   `c` (pmtiles) opens and `coreP` equals that of the completed file, `X` opens but differs. -/
 
@@ -259,6 +273,7 @@ def parseOp (s : String) : Option Op :=
   | ["a", h] => (unhex h).map .append
   | ["w", h] => (unhex h).map .writeStart
   | ["p", n] => n.toNat?.map .setPosition
+  | ["t"] => some .truncate
   | _ => none
 
 def parseCut (s : String) : Option (Nat × Nat) :=
@@ -293,10 +308,13 @@ def handleAux (args : List String) : Option String := do
   let (ops, rest) ← takeN parseOp nops rest
   let ncuts :: rest := rest | none
   let ncuts ← ncuts.toNat?
-  let (cuts, _) ← takeN parseCut ncuts rest
-  let final := (run ops).file
+  let (cuts, rest) ← takeN parseCut ncuts rest
+  let old ← match rest with
+    | "old" :: h :: _ => unhex h
+    | _ => some []
+  let final := (runOn old ops).file
   let dec := tableDec tab
-  pure (String.join (cuts.map fun (i, k) => verdict fmt dec final (crash ops i k)))
+  pure (String.join (cuts.map fun (i, k) => verdict fmt dec final (crashOn old ops i k)))
 
 def handle (args : List String) : String := (handleAux args).getD "bad-op"
 
